@@ -54,7 +54,9 @@ def cases(draw):
     return {"kind": "ok", "spec": spec, "own": own, "csv": csvf, "channel": draw(st.sampled_from(["file", "dash", "noarg"])),
             "glob": draw(st.sampled_from([[], [], ["--verbose"], ["--quiet"]])),
             "crlf": draw(st.booleans()), "tf": draw(st.sampled_from([None, "%d.%m.%y"])),
-            "fname": draw(st.sampled_from(["p.tjp", "p.tjp", "p.tjp", "Planfile", "demo.tjp.v2", "p.TJP", "my plan.tjp", "p.txt", "sub/p.tjp", "-p.tjp"]))}
+            "fname": draw(st.sampled_from(["p.tjp", "p.tjp", "p.tjp", "Planfile", "demo.tjp.v2", "p.TJP", "my plan.tjp", "p.txt", "sub/p.tjp", "-p.tjp",
+                                            "Zeitplan_M\u00e4rz.tjp", "\u8a08\u753b.tjp", "new\nline.tjp", "a'b.tjp"])),
+            "no_tasks": draw(st.integers(0, 9)) == 0}
 
 
 def parse_stdout(out: bytes, csvf: bool):
@@ -150,6 +152,8 @@ def eval_case(case):
         spec = case["spec"]
         if case["tf"]:
             spec = replace(spec, timeformat=case["tf"])
+        if case.get("no_tasks"):
+            spec = replace(spec, tasks=[])  # a valid project that defines no task: an empty report, not an error
         base_text = render(spec)
         text = render(replace(spec, reports=list(case["own"])))
         if case["crlf"]:
@@ -198,7 +202,7 @@ def eval_case(case):
                 vs.append(Violation("channel_output_differs", where, "stdout differs between file and stdin input"))
         own_fmt = any(("csv" if csvf else "json") in (o.formats or ["json"]) for o in case["own"])
         r.nontrivial = own_fmt or ch != "file"
-        r.classes += [ch, "csv" if csvf else "json"] + ([] if fname == "p.tjp" else ["other_file_name"]) + [g.strip("-") for g in case.get("glob", [])] + (["own_report_same_format"] if own_fmt else []) + (["crlf"] if case["crlf"] else [])
+        r.classes += [ch, "csv" if csvf else "json"] + (["no_tasks"] if case.get("no_tasks") else []) + ([] if fname == "p.tjp" else ["other_file_name"]) + [g.strip("-") for g in case.get("glob", [])] + (["own_report_same_format"] if own_fmt else []) + (["crlf"] if case["crlf"] else [])
         if any(not t.scheduled for t in obs.scen[0].tasks):
             r.classes.append("unschedulable_tasks")
         if r.nontrivial:
